@@ -14,7 +14,7 @@ RULE = ("one seeded tree of C01 read through one of the four callback entry poin
 
 
 def gen_world(rng, i, tier):
-    w = gen.gen_layered_world(rng, i, allow_refuse=False)
+    w = gen.gen_layered_world(rng, i, allow_refuse=False, allow_dotdot=True)
     read = w["read"]
     if rng.chance(0.08):
         # single file through econf_readFileWithCallback
